@@ -42,6 +42,8 @@ func init() {
 		pl := pl
 		RegisterScenario(&Scenario{Name: "c09/io-server/" + pl, Run: func(p []int, m []vsched.ChoicePoint) explore.Outcome { return c09IOServer(p, pl) },
 			Doc: "stdio server: two concurrent requests, one of whose handlers issues roots/list through the outgoing pump; stdout recorded byte-wise"})
+		RegisterScenario(&Scenario{Name: "c09/io-server-bad/" + pl, Run: func(p []int, m []vsched.ChoicePoint) explore.Outcome { return c09IOServerV(p, pl, true) },
+			Doc: "stdio server: as io-server, with a non-JSON line and a non-JSON-RPC line between the two requests (their error replies share stdout with everything else)"})
 		RegisterScenario(&Scenario{Name: "c09/io-client/" + pl, Run: func(p []int, m []vsched.ChoicePoint) explore.Outcome { return c09IOClient(p, pl) },
 			Doc: "stdio client: a pending CallTool || the reader answering an unknown server request; stdin recorded byte-wise"})
 		RegisterScenario(&Scenario{Name: "c09/get-stream/" + pl, Run: func(p []int, m []vsched.ChoicePoint) explore.Outcome { return c09GetStream(p, pl) },
@@ -67,6 +69,7 @@ func init() {
 			}
 			b := explore.Bounds{Preempt: pb, Dev: 1, POR: true}
 			c.DFSBoth("c09/io-server/"+pl, b, 1)
+			c.DFSBoth("c09/io-server-bad/"+pl, b, 1)
 			c.DFSBoth("c09/io-client/"+pl, b, 1)
 			c.DFS("c09/post-sse/"+pl, explore.Bounds{Preempt: 1, Dev: 1, POR: true})
 			if c.Quick() && pl != "small" && pl != "65537" && pl != "lf" {
@@ -186,7 +189,11 @@ func resultText(m map[string]interface{}) string {
 	return t
 }
 
-func c09IOServer(prefix []int, pl string) explore.Outcome {
+func c09IOServer(prefix []int, pl string) explore.Outcome { return c09IOServerV(prefix, pl, false) }
+
+// c09IOServerV: with bad=true two lines the server cannot serve (not JSON; JSON but no JSON-RPC
+// message) arrive between the two requests: their error replies are frames like any other.
+func c09IOServerV(prefix []int, pl string, bad bool) explore.Outcome {
 	var viol []explore.Violation
 	obs := &hx.Log{}
 	payload := c09Payloads[pl]
@@ -227,16 +234,33 @@ func c09IOServer(prefix []int, pl string) explore.Outcome {
 			json.Unmarshal([]byte(f), &m)
 			r.C2S.Write([]byte(fmt.Sprintf(`{"jsonrpc":"2.0","id":%s,"result":{"roots":[{"uri":"file:///a"}]}}`+"\n", m.ID)))
 		})
-		r.C2S.Write([]byte(`{"jsonrpc":"2.0","id":11,"method":"tools/call","params":{"name":"echo"}}` + "\n" + `{"jsonrpc":"2.0","id":12,"method":"tools/call","params":{"name":"roots"}}` + "\n"))
+		junk := ""
+		where := "io-server"
+		if bad {
+			junk = "this is not json {\n" + `{"foo":1}` + "\n"
+			where = "io-server-bad"
+		}
+		r.C2S.Write([]byte(`{"jsonrpc":"2.0","id":11,"method":"tools/call","params":{"name":"echo"}}` + "\n" + junk + `{"jsonrpc":"2.0","id":12,"method":"tools/call","params":{"name":"roots"}}` + "\n"))
 		vsched.Quiesce()
-		got, v := c09Lines(r.S2C.Stream(), "io-server")
+		got, v := c09Lines(r.S2C.Stream(), where)
 		viol = append(viol, v...)
-		viol = append(viol, c09Expect(got, "io-server", map[string]func(map[string]interface{}) bool{
+		errCode := func(code float64) func(map[string]interface{}) bool {
+			return func(m map[string]interface{}) bool {
+				e, _ := m["error"].(map[string]interface{})
+				return e != nil && e["code"] == code
+			}
+		}
+		want := map[string]func(map[string]interface{}) bool{
 			"init response":      func(m map[string]interface{}) bool { return m["id"] == "init-0" },
 			"echo response":      func(m map[string]interface{}) bool { return hasID(11)(m) && resultText(m) == "echo:"+payload },
 			"roots response":     func(m map[string]interface{}) bool { return hasID(12)(m) && resultText(m) == "roots:1" },
 			"roots/list request": isMethod("roots/list"),
-		})...)
+		}
+		if bad {
+			want["parse-error reply"] = errCode(-32700)
+			want["invalid-request reply"] = errCode(-32600)
+		}
+		viol = append(viol, c09Expect(got, where, want)...)
 		obs.Add("%d lines", len(got))
 	})
 	return finishOutcome(res, obs, viol, true)
